@@ -344,3 +344,40 @@ package app
 //@   assigns types.ProcessState.ExitCode[*], slept(), lastWait()
 //@   loop 1 invariant noLocks() && runnerWF(p)
 //@   loop 1 invariant forall k string :: seen(k) && k in process.DependsOn && depProc(p, k) != nil ==> satisfied(process.DependsOn[k].Condition, depProc(p, k))
+
+//@ func (p *ProjectRunner) addRunningProcess
+//@   requires !held(p.runProcMutex) && p.runningProcesses != nil
+//@   ensures p.runningProcesses[process.procConf.ReplicaName] == process && process.procConf.ReplicaName in p.runningProcesses
+//@   assigns entries(p.runningProcesses)
+//@ func (p *ProjectRunner) addDoneProcess
+//@   requires !held(p.doneProcMutex) && p.doneProcesses != nil
+//@   ensures p.doneProcesses[process.procConf.ReplicaName] == process && process.procConf.ReplicaName in p.doneProcesses
+//@   assigns entries(p.doneProcesses)
+//@ func (p *ProjectRunner) removeRunningProcess
+//@   requires !held(p.runProcMutex)
+//@   ensures !(process.procConf.ReplicaName in p.runningProcesses)
+//@   assigns entries(p.runningProcesses)
+
+// C04: project exit code and shutdown trigger
+//@ ghost shutdownCalls() int
+//@ define exitTrigger(code int, c *types.ProcessConfig) bool = (code != 0 && c.RestartPolicy.Restart == "exit_on_failure") || c.RestartPolicy.ExitOnEnd
+
+//@ func (p *ProjectRunner) ShutDownProject
+//@   requires noLocks() && runnerWF(p)
+//@   param cancelAppFn as cancelfunc
+//@   ensures called: shutdownCalls() == old(shutdownCalls()) + 1
+//@   ensures nolocks: noLocks()
+//@   sets shutdownCalls() := shutdownCalls() + 1
+//@   assigns everything_but app.ProjectRunner.exitCode[*], types.RestartPolicyConfig.Restart[*], types.RestartPolicyConfig.ExitOnEnd[*], types.RestartPolicyConfig.ExitOnSkipped[*], app.ProjectRunner.runningProcesses[*], app.ProjectRunner.doneProcesses[*]
+
+//@ func (p *ProjectRunner) onProcessEnd
+//@   requires noLocks() && runnerWF(p)
+//@   ensures trigger: exitTrigger(exitCode, procConf) <==> shutdownCalls() == old(shutdownCalls()) + 1
+//@   ensures notrigger: !exitTrigger(exitCode, procConf) ==> shutdownCalls() == old(shutdownCalls()) && p.exitCode == old(p.exitCode)
+//@   ensures first-trigger-wins: exitTrigger(exitCode, procConf) ==> p.exitCode == ite(old(shutdownCalls()) == 0, exitCode, old(p.exitCode))
+
+//@ func (p *ProjectRunner) onProcessSkipped
+//@   requires noLocks() && runnerWF(p)
+//@   ensures trigger: procConf.RestartPolicy.ExitOnSkipped <==> shutdownCalls() == old(shutdownCalls()) + 1
+//@   ensures notrigger: !procConf.RestartPolicy.ExitOnSkipped ==> shutdownCalls() == old(shutdownCalls()) && p.exitCode == old(p.exitCode)
+//@   ensures first-trigger-wins: procConf.RestartPolicy.ExitOnSkipped ==> p.exitCode == ite(old(shutdownCalls()) == 0, 1, old(p.exitCode))
